@@ -1,6 +1,8 @@
 """C07 CrossHair harnesses: RP66V1 variable-length representation codes on fully symbolic byte strings."""
 import logging
+import os
 logging.disable(logging.CRITICAL)
+PART = int(os.environ.get('VERIF_PART', '-1'))
 from engine import mark
 from TotalDepth.RP66V1.core import pRepCode as RC
 from TotalDepth.RP66V1.core.pFile import LogicalData
@@ -31,6 +33,18 @@ def _ident_spec(d, i):
     return d[i + 1:i + 1 + n], 1 + n
 
 
+def _fix_len_byte(d, i):
+    """d with the length byte at i made concrete by branching (all 256 values are still covered: one branch per value that fits in
+    the remaining bytes, one branch for all the values that do not), so that the slices taken by the decoder have concrete bounds."""
+    if i >= len(d):
+        return d
+    room = len(d) - i - 1
+    n = d[i]
+    if n > room:
+        return d
+    return d[:i] + bytes([mark.pick(n, 0, room)]) + d[i + 1:]
+
+
 def _run(fn, data):
     ld = LogicalData(data)
     try:
@@ -39,20 +53,21 @@ def _run(fn, data):
         return ('short', None, None)
 
 
-def ident_units(data: bytes) -> bool:
+def ident_code(data: bytes) -> bool:
     """
-    pre: len(data) <= 5
+    pre: len(data) <= 10
+    pre: PART < 0 or len(data) == PART
     post: _
     """
     mark.hit()
+    data = _fix_len_byte(data, 0)
     spec = _ident_spec(data, 0)
-    for fn in (RC.IDENT, RC.UNITS):
-        r = _run(fn, data)
-        if spec is None:
-            if r[0] != 'short':
-                return False
-        elif r != ('ok', spec[0], spec[1]):
+    r = _run(RC.IDENT, data)
+    if spec is None:
+        if r[0] != 'short':
             return False
+    elif r != ('ok', spec[0], spec[1]):
+        return False
     if len(data) > 0 and RC.IDENT_len(data, 0) != 1 + data[0]:
         return False
     if len(data) == 0 and RC.IDENT_len(data, 0) != 0:
@@ -60,9 +75,40 @@ def ident_units(data: bytes) -> bool:
     return True
 
 
+UNITS_ALPHABET = (0x6d, 0x2a, 0x00, 0xff, 0x20)      # 'm' (allowed), '*' (not in the RP66V1 units alphabet: logged, still returned), NUL, 0xff, space
+
+
+def units_code(n: int, lb: bytes, c0: int, c1: int, c2: int) -> bool:
+    """
+    pre: 0 <= n <= 4 and len(lb) == 1
+    pre: 0 <= c0 <= 4 and 0 <= c1 <= 4 and 0 <= c2 <= 4
+    pre: PART < 0 or n == PART
+    post: _
+    """
+    # UNITS builds a set of the bytes read (alphabet warning), which forks per byte value: the content bytes come from a 5-letter
+    # alphabet here, the length byte keeps all 256 values (decided by how it compares with the bytes available)
+    n = mark.pick(n, 0, 4)
+    mark.hit()
+    ln = lb[0]
+    if ln >= n:
+        # the length byte (any of the remaining values, symbolic) asks for more than there is: the content does not matter
+        data = (lb + b'm*m')[:n]
+        return _run(RC.UNITS, data)[0] == 'short'
+    cs = [UNITS_ALPHABET[mark.pick(c, 0, 4)] for c in (c0, c1, c2)]
+    ln = mark.pick(ln, 0, n)
+    with mark.untraced():
+        data = (bytes([ln]) + bytes(cs))[:n]
+        spec = _ident_spec(data, 0)
+        r = _run(RC.UNITS, data)
+        if spec is None:
+            return r[0] == 'short'
+        return r == ('ok', spec[0], spec[1])
+
+
 def ascii_code(data: bytes) -> bool:
     """
-    pre: len(data) <= 6
+    pre: len(data) <= 10
+    pre: PART < 0 or len(data) == PART
     post: _
     """
     mark.hit()
@@ -75,7 +121,8 @@ def ascii_code(data: bytes) -> bool:
 
 def obname_objref(data: bytes) -> bool:
     """
-    pre: len(data) <= 7
+    pre: len(data) <= 9
+    pre: PART < 0 or len(data) == PART
     post: _
     """
     mark.hit()
@@ -115,6 +162,7 @@ def obname_objref(data: bytes) -> bool:
 def dtime(data: bytes) -> bool:
     """
     pre: len(data) <= 9
+    pre: PART < 0 or len(data) == PART
     post: _
     """
     mark.hit()
